@@ -333,7 +333,15 @@ func VF_C12_S1_ResetResponse() {
 	rs.handleEvent(&ResourceEvent{Event: "remove", Payload: json.RawMessage(`{"idx":0}`)})
 	zzvf.Assert(len(sub.events) == 0 && rs.version == 0, "state-events-dropped-while-resetting")
 	rs.resetting = false
-	switch zzvf.Choose("answer", 5) {
+	switch zzvf.Choose("answer", 6) {
+	case 5: // empty content is still content of the right type
+		if isModel {
+			rs.processResetGetResponse([]byte(`{"result":{"model":{}}}`), nil)
+			zzvf.Assert(len(sub.events) == 1 && sub.events[0].Event == "change" && len(rs.model.Values) == 0, "empty-model-refetch-applied")
+		} else {
+			rs.processResetGetResponse([]byte(`{"result":{"collection":[]}}`), nil)
+			zzvf.Assert(len(sub.events) == 1 && sub.events[0].Event == "remove" && len(rs.collection.Values) == 0, "empty-collection-refetch-applied")
+		}
 	case 0: // wrong type
 		if isModel {
 			rs.processResetGetResponse([]byte(`{"result":{"collection":[1,2]}}`), nil)
